@@ -338,3 +338,9 @@ func (m *Model) AmbiguousCondShape(t Tuple) bool {
 	}
 	return shapeAny && !condSameShape && condOtherShape
 }
+
+// ObjID returns the id part of "type:id" ("" if there is none).
+func ObjID(o string) string {
+	_, id, _ := SplitUser(o)
+	return id
+}
